@@ -80,6 +80,47 @@ def c18(tier, seed):
         jobs.append(Job("grid-%02d" % i, H, ["grid", i, ng, 1 if tier == "thorough" else 0], weight=6))
     return jobs
 
+# ---------------------------------------------------------------- C19
+@prop("C19", "exploration",
+      "all argument tuples: trim/trim_head/trim_tail over {SP,TAB,CR,LF,VT,a,0x80}^<=6; unchar over {\",',a}^<=5 x 4 quote "
+      "pairs; replace sn/sr/tn/tr for sources {a,b,c}^<=5 x 14 tokens x 16 words; qstrcpy/qstrncpy for sources <=4, "
+      "every size 1..n+2, every nbytes 0..n, overlapping src/dst at every offset; qstrtok/qstrtokenizer over "
+      "{a,b,:,,}^<=6 x 3 delimiter sets; qstrgets over {a,b,LF,CR}^<=6 x size 2..9,32; rev/upper/lower over 10 boundary "
+      "bytes ^<=4; qstrdup_between/qmemdup. non-trivial = the routine had something to change/split/truncate",
+      ["one-line reference definitions in engines/inputmc/c19.c", "a final empty token after a trailing delimiter may or may not be reported (documentation silent)"],
+      [need("evaluations", 100000), need("nontrivial", 10000)])
+def c19(tier, seed):
+    H = ["inputmc/c19.c"]
+    t = ["thorough"] if tier == "thorough" else []
+    jobs = [Job(m, H, [m] + t, weight=w) for m, w in [("trim", 3), ("unchar", 1), ("copy", 2), ("tok", 3), ("gets", 3), ("misc", 2), ("dup", 2)]]
+    for i in range(14):
+        jobs.append(Job("replace-%02d" % i, H, ["replace", i] + t, weight=2))
+    return jobs
+
+# ---------------------------------------------------------------- C17
+@prop("C17", "exploration",
+      "every sequence of <= L tokens over the significant tokens of each format, as a NUL-terminated string in an exactly "
+      "sized heap block: URL {%,+,a,4,G,SP,0x80} L=7, Base64 {A,z,=,+,/,LF,0xff} L=7, hex {0,a,F,g,0xff} L=8, query "
+      "{&,=,%,+,a,SP} L=7, INI 16 tokens incl. ${a} ${b} ${ } $ { [ ] # LF SP ${%E} ${!x} L=5, INI file with @INCLUDE "
+      "L=5, Apache 14 tokens incl. quotes, backslash, < </ > # LF L=5 x 2 flag sets, and over-long lines around the "
+      "4096/8192 fgets boundary (thorough: L+1). Oracle: no ASan/UBSan report, no crash, no hang (allocation budget + "
+      "CPU watchdog), decoders never grow the string. non-trivial = non-empty / contains a structural token",
+      ["popen is wrapped to fail (${!cmd} never executes)", "self-including files (@INCLUDE of the file itself) are outside the bound"],
+      [need("evaluations", 1000000)])
+def c17(tier, seed):
+    H = ["inputmc/c17.c"]
+    W = ["popen", "malloc"]
+    X = 1 if tier == "thorough" else 0
+    jobs = []
+    def fam(name, L, shards, w):
+        for i in range(shards):
+            jobs.append(Job("%s-%d" % (name, i), H, [name, L, i, shards], wraps=W, weight=w))
+    fam("url", 7 + X, 2, 2); fam("b64", 7 + X, 2, 2); fam("hex", 8 + X, 1, 1); fam("query", 7 + X, 2, 3)
+    fam("ini", 5 + X, 16 if X else 6, 8); fam("inifile", 5 + X, 4 if X else 1, 3)
+    fam("apache0", 5 + X, 16 if X else 6, 8); fam("apache3", 5 + X, 16 if X else 6, 8)
+    fam("longline", 0, 1, 4)
+    return jobs
+
 NOT_YET = {}
 ENGINES = [
     {"name": "inputmc", "path": "engines/inputmc", "serves_properties": ["C16", "C17", "C18", "C19", "C20"],
